@@ -37,13 +37,29 @@ RULE = ("every public method of tensor/sptensor/ktensor/ttensor/sumtensor/tenmat
         "operands (orders 1..4, singleton modes, F/C/strided layouts for constructor arguments). Every operation that "
         "takes a mode order, mode subset or mode split is swept over the identity, EVERY order/split that only relocates "
         "singleton modes (where the model predicts a view unless the code copies), layout-changing orders, and "
-        "size-preserving reshapes, with copy=True/False; every caller-supplied object is snapshotted bit for bit; "
+        "size-preserving reshapes, with copy=True/False; every caller-supplied object is snapshotted bit for bit. "
+        "Parameter corner cases where the general case computes new arrays but nothing is left to compute, for every "
+        "class: EMPTY mode selections of ttv / ttm / collapse (dims=[] or exclude_dims=all modes, with N multiplicands or "
+        "none, array and list), ttsv with the last mode skipped, already symmetric / partly symmetric / all-zero "
+        "receivers of symmetrize x every way of naming the groups x both versions (branch decided by a NumPy reference), "
+        "sparse receivers and operands WITHOUT nonzeros or with a single one for every unary, binary (either side, both), "
+        "scale (every factor kind), product and mask operation, dense receivers without nonzeros / all ones, the tensor "
+        "without modes, identity scalars (+0, *1, /1, **1), identity matrices, all-ones masks, single-element lists and "
+        "single-component Kruskal tensors, Kruskal tensors already in normal form / already symmetric, sum tensors with "
+        "parts without nonzeros, khatrirao of ONE matrix in every layout and 1-row / 1-column shape, helper functions on "
+        "empty / identical row sets and identity renumberings, algorithms that stop at once (maxiters 0 / 1, a tolerance met "
+        "by the first iteration, optimizers with no iteration, full ranks). Besides the array level (np.shares_memory, "
+        "write every element, both directions) every case is observed at OBJECT level: a returned pyttb object that IS an "
+        "operand object, and a write through the public __setitem__ of either side re-read through the other (holders "
+        "re-walked, so a rebound attribute counts - this is what makes an aliased tensor without nonzeros visible); "
         "non-trivial = the call succeeded and returned or changed at least one array; distinct = distinct case hash")
 ASSUMPTIONS = [
     "the classification of NumPy calls into view / fresh / in-place write used by the heap model (checked on every "
     "run by the 'numpy_prims' family against np.shares_memory, strides and contiguity flags)",
     "np.shares_memory is exact; writing every element of an array makes any shared cell visible",
     "callables passed by the caller (tenfun, elemfun, collapse, from_function) return new arrays",
+    "object identity and the objects' own __setitem__ are checked by the harness against the property text directly (the "
+    "heap model speaks about array cells; an object whose arrays have no cells is outside it)",
 ]
 TRUSTED_EXTRA = ["NumPy's own view / copy behaviour below the modelled primitives (exercised, not proved)"]
 EXHAUSTIVE = {"quick": False, "thorough": False}
@@ -156,6 +172,8 @@ def build(s):
     if t == "fn":
         return FUNCS[s["name"]]
     if t == "tensor":
+        if not s["shape"]:
+            return ttb.tensor()  # the tensor without modes and without entries
         return gen.mk_tensor(ttb, s["shape"], s["data"])
     if t == "sptensor":
         return gen.mk_sptensor(ttb, s["shape"], s["subs"], s["vals"])
@@ -203,8 +221,8 @@ def build(s):
     if t == "optimizer":
         from pyttb.gcp import optimizers as O
         if s["name"] == "LBFGSB":
-            return O.LBFGSB(maxiter=2)
-        return getattr(O, s["name"])(max_iters=1, epoch_iters=2, printitn=0)
+            return O.LBFGSB(maxiter=s.get("max_iters", 2))
+        return getattr(O, s["name"])(max_iters=s.get("max_iters", 1), epoch_iters=2, printitn=0)
     raise ValueError(f"spec {t}")
 
 
@@ -230,8 +248,13 @@ def Spos(rng, shape):
     return s
 
 
-def Kspec(rng, shape, R=2, unit=False, pos=False):
+def Kspec(rng, shape, R=2, unit=False, pos=False, normal=False):
+    """normal: already in normal form – every column is a signed unit vector (norm one in every norm),
+    weights one (so normalize / arrange / fixsigns have nothing to do)."""
     def mat(m):
+        if normal:
+            cols = [rng.randrange(m) for _ in range(R)]
+            return [[1 if cols[r] == i else 0 for r in range(R)] for i in range(m)]
         if pos:
             return [[rng.randint(1, 4) for _ in range(R)] for _ in range(m)]
         return [[rng.choice([-3, -2, -1, 1, 2, 3]) for _ in range(R)] for _ in range(m)]
@@ -243,6 +266,56 @@ def TTspec(rng, shape, cshape=None):
     cshape = cshape or [min(2, m) for m in shape]
     return {"t": "ttensor", "core": Tspec(rng, cshape),
             "factors": [[[rng.choice([-2, -1, 1, 2, 3]) for _ in range(c)] for _ in range(m)] for m, c in zip(shape, cshape)]}
+
+
+def Tzero(shape):
+    """A dense tensor without nonzeros."""
+    return {"t": "tensor", "shape": list(shape), "data": [0] * gen.numel(shape)}
+
+
+def Tones(shape):
+    return {"t": "tensor", "shape": list(shape), "data": [1] * gen.numel(shape)}
+
+
+def sym_data(rng, shape, grps):
+    """F-ordered data of a tensor that is symmetric in every listed group of modes (the value of an
+    entry depends on its subscript only through the sorted subscripts of each group)."""
+    vals = {}
+    out = []
+    for sub in gen.all_subs(shape):
+        key = list(sub)
+        for g in grps:
+            srt = sorted(sub[k] for k in g)
+            for k, v in zip(sorted(g), srt):
+                key[k] = v
+        out.append(vals.setdefault(tuple(key), rng.choice([-4, -3, -2, -1, 1, 2, 3, 4, 5])))
+    return out
+
+
+def is_sym(shape, data, grps):
+    """Reference (plain NumPy): the tensor equals every transposition of itself that permutes the
+    modes within the groups.  Decides which branch of `symmetrize` runs."""
+    import itertools
+    A = np.array(data, dtype=float).reshape(tuple(shape), order="F")
+    for g in grps:
+        for q in itertools.permutations(g):
+            order = list(range(len(shape)))
+            for a, b in zip(g, q):
+                order[a] = b
+            if tuple(shape[k] for k in order) != tuple(shape) or not np.array_equal(A, np.transpose(A, order)):
+                return False
+    return True
+
+
+def empty_selections(N, items):
+    """Argument conventions that select NO mode of an order-N object for ttv / ttm: `dims=[]` or
+    `exclude_dims` = every mode, with N multiplicands (`items`) or with none, as array and list."""
+    allm = list(range(N))
+    return [("none/dims-empty/N", [lst(items)], {"dims": iarr([])}),
+            ("none/dims-empty/0", [lst([])], {"dims": iarr([])}),
+            ("none/exclude-all/N", [lst(items)], {"exclude_dims": iarr(allm)}),
+            ("none/exclude-all/0", [lst([])], {"exclude_dims": iarr(allm)}),
+            ("none/exclude-all-list/N", [lst(items)], {"exclude_dims": py(allm)})]
 
 
 def mat(rng, r, c, layout="F"):
@@ -302,6 +375,62 @@ def walk(obj, path, out, depth=0):
         for k in sorted(vars(obj)):
             walk(vars(obj)[k], _j(path, k), out, depth + 1)
     return out
+
+
+PYTTB_TYPES = (ttb.tensor, ttb.sptensor, ttb.ktensor, ttb.ttensor, ttb.sumtensor, ttb.tenmat, ttb.sptenmat)
+
+
+def walk_objs(obj, path, out, depth=0):
+    """The pyttb objects reachable from obj (the object itself, parts of a sum tensor, the core of
+    a Tucker tensor, entries of lists / tuples / dicts), with their paths."""
+    if depth > 6 or obj is None:
+        return out
+    if isinstance(obj, PYTTB_TYPES):
+        out.append((path, obj))
+        if isinstance(obj, ttb.ttensor):
+            walk_objs(obj.core, _j(path, "core"), out, depth + 1)
+        elif isinstance(obj, ttb.sumtensor):
+            for i, q in enumerate(obj.parts):
+                walk_objs(q, _j(path, f"p{i}"), out, depth + 1)
+    elif isinstance(obj, (list, tuple)):
+        for i, x in enumerate(obj):
+            walk_objs(x, _j(path, str(i)), out, depth + 1)
+    elif isinstance(obj, dict):
+        for k in sorted(obj, key=str):
+            walk_objs(obj[k], _j(path, str(k)), out, depth + 1)
+    return out
+
+
+def under(name, path):
+    """Is the array / object called `name` the object at `path` or inside it?"""
+    return path == "" or name == path or name.startswith(path + ".")
+
+
+def poke(obj, val=7.5):
+    """Change one entry of a pyttb object through its OWN public `__setitem__` (for a sparse object
+    this rebinds its arrays, so it is visible through another name of the same object even when no
+    array has a cell to share – the tensor without nonzeros).  False when there is nothing to write."""
+    try:
+        if isinstance(obj, (ttb.tensor, ttb.sptensor)):
+            shape = tuple(int(d) for d in obj.shape)
+            if len(shape) == 0 or 0 in shape:
+                return False
+            key = tuple([0] * len(shape)) if len(shape) > 1 else 0
+            with warnings.catch_warnings():
+                warnings.simplefilter("ignore")
+                obj[key] = val  # never a value of the generated data (small integers)
+            return True
+        if isinstance(obj, (ttb.tenmat, ttb.sptenmat)):
+            shape = tuple(int(d) for d in obj.shape)
+            if len(shape) != 2 or 0 in shape:
+                return False
+            if isinstance(obj, ttb.tenmat) and not np.issubdtype(obj.data.dtype, np.floating):
+                return False
+            obj[0, 0] = val
+            return True
+    except Exception:  # noqa: BLE001
+        return False
+    return False
 
 
 def snap(a):
@@ -431,6 +560,47 @@ def observe(c):
                     vis.add((rn, i))
     obs["share"] = sorted(share)
     obs["visible"] = sorted(vis)
+    obs["rsize"] = [int(r.size) for _, r in results]
+    # (d) object level.  Identity: a pyttb object reachable from the result IS an object reachable
+    # from an operand.  Write-through with the objects' own `__setitem__` in both directions: the
+    # arrays reachable from the other side are re-walked from their holders, so a rebound attribute
+    # counts (what makes an aliased tensor WITHOUT nonzeros observable: no array has a cell to share).
+    obs["same"], obs["visible_obj"] = [], []
+    if c["kind"] != "inplace":
+        robjs = walk_objs(result, "", [])
+        oobjs = walk_objs(recv, "self", [])
+        for i, a in enumerate(args):
+            walk_objs(a, f"a{i}", oobjs)
+        for k in kwargs:
+            walk_objs(kwargs[k], f"k.{k}", oobjs)
+        obs["same"] = sorted((rp, op) for rp, ro in robjs for op, oo in oobjs if ro is oo)
+
+        def operand_snaps():
+            now = walk(recv, "self", [])
+            for i, a in enumerate(args):
+                walk(a, f"a{i}", now)
+            for k in kwargs:
+                walk(kwargs[k], f"k.{k}", now)
+            return {n: snap(a) for n, a in now}
+
+        def result_snaps():
+            return {n: snap(a) for n, a in walk(result, "", [])}
+
+        def changed(before_, after_):
+            return sorted(n for n in set(before_) | set(after_) if before_.get(n) != after_.get(n))
+
+        vo = set()
+        for rp, ro in robjs:
+            cur = operand_snaps()
+            if poke(ro):
+                for n in changed(cur, operand_snaps()):
+                    vo.add(("r", rp, n))
+        for op, oo in oobjs:
+            cur = result_snaps()
+            if poke(oo, 8.5):
+                for n in changed(cur, result_snaps()):
+                    vo.add(("o", n, op))
+        obs["visible_obj"] = sorted(vo)
     return obs
 
 
@@ -573,9 +743,13 @@ def tensor_cases(rng, tier):
     out.append(case(C, "from_function", "ones_f", None, [fn("ones_f"), py([2, 3])], {}, COMP, "static"))
     # receivers ----------------------------------------------------------------------------
     shapes = DENSE_SHAPES if tier == "quick" else DENSE_SHAPES + [gen.shape(rng, 1, 4, 3) for _ in range(16)]
-    for shape in shapes:
+    # every receiver shape with generic data; two of them also WITHOUT nonzeros and with all entries one
+    recvs = [(shape, Tspec(rng, shape), "") for shape in shapes]
+    recvs += [(shape, Tzero(shape), "zero/") for shape in ([2, 3, 4], [3, 1, 2], [4])]
+    recvs += [([2, 3, 2], Tones([2, 3, 2]), "ones/")]
+    for shape, X, variant in recvs:
+        first = len(out)
         N = len(shape)
-        X = Tspec(rng, shape)
         EW = M(C, "elementwise", shape=shape)
         for m in ("copy", "__pos__", "full"):
             out.append(case(C, m, "", X, [], {}, M(C, "copy", shape=shape)))
@@ -676,6 +850,25 @@ def tensor_cases(rng, tier):
 
         out.append(case(C, "ttv", "one", X, [vec(rng, shape[0]), py(0)], {}, ttv_model([0])))
         out.append(case(C, "ttv", "all", X, [lst([vec(rng, d) for d in shape])], {}, ttv_model(list(range(N)))))
+        # NO mode selected: nothing is multiplied, the result carries the receiver's entries
+        for lab, a, kw in empty_selections(N, [vec(rng, d) for d in shape]):
+            out.append(case(C, "ttv", lab, X, a, kw, M(C, "ttv", perm=list(range(N)), shape=shape, flag="none")))
+            if lab in ("none/dims-empty/0", "none/exclude-all/N"):  # (rejected by tensor.ttm at the time of writing)
+                out.append(case(C, "ttm", lab, X, [lst([mat(rng, 2, d) for d in shape]) if lab.endswith("N") else lst([])], kw))
+        out.append(case(C, "ttm", "list-one", X, [lst([mat(rng, 2, shape[N - 1])]), iarr([N - 1])], {}))
+        out.append(case(C, "ttm", "identity-matrix", X,
+                        [arr([shape[0], shape[0]], [1 if i == j else 0 for j in range(shape[0]) for i in range(shape[0])]), py(0)],
+                        {}, ttm_model(0, shape[0]) if N >= 2 else COMP))
+        out.append(case(C, "collapse", "none-list", X, [py([])]))
+        out.append(case(C, "collapse", "none-arr", X, [iarr([])]))
+        out.append(case(C, "mask", "all-ones", X, [Tones(shape)]))
+        for m, e in (("__add__", 0.0), ("__sub__", 0.0), ("__mul__", 1.0), ("__truediv__", 1.0), ("__pow__", 1.0),
+                     ("__radd__", 0.0), ("__rmul__", 1.0)):
+            out.append(case(C, m, "scalar-identity", X, [py(e)], {}, EW))
+        out.append(case(C, "__add__", "zero-tensor", X, [Tzero(shape)], {}, EW))
+        out.append(case(C, "__mul__", "ones-tensor", X, [Tones(shape)], {}, EW))
+        out.append(case(C, "__mul__", "empty-sptensor", X, [Sspec(rng, shape, "empty")], {}, EW))
+        out.append(case(C, "innerprod", "empty-sptensor", X, [Sspec(rng, shape, "empty")]))
         if N >= 2:
             for ds in mode_subsets(rng, N, tier):
                 out.append(case(C, "ttv", f"dims{len(ds)}", X, [lst([vec(rng, shape[k]) for k in ds]), iarr(ds)], {},
@@ -727,22 +920,66 @@ def tensor_cases(rng, tier):
         out.append(case(C, "__setitem__", "subtensor-array", X,
                         [tup([sl(0, d) for d in shape]), arr(shape, gen.dense_data(rng, shape))], {}, si("sub"), "inplace"))
         out.append(case(C, "__setitem__", "subtensor-grow", X, [tup([py(d) for d in shape]), py(1.0)], {}, si("grow"), "inplace"))
-    # cubic receivers: contract, symmetrize, issymmetric, ttsv
-    for shape in ([2, 2, 2], [3, 3]):
-        X = Tspec(rng, shape)
+        for c in out[first:]:
+            c["label"] = variant + c["label"]
+    # the tensor without modes and entries
+    E0 = {"t": "tensor", "shape": [], "data": []}
+    for m in ("copy", "__pos__", "full", "double", "__neg__", "norm", "squeeze", "to_sptensor", "find", "__repr__"):
+        out.append(case(C, m, "no-modes", E0))
+    out.append(case(C, "__deepcopy__", "no-modes", E0, [py({})]))
+    out.append(case(C, "permute", "no-modes", E0, [iarr([])]))
+    out.append(case(C, "reshape", "no-modes", E0, [py(())]))
+    out.append(case(C, "__add__", "no-modes", E0, [E0]))
+    out.append(case(C, "isequal", "no-modes", E0, [E0]))
+    # receivers with modes of equal extent: contract, symmetrize, issymmetric, ttsv.  symmetrize over generic,
+    # ALREADY SYMMETRIC (nothing to average: the result carries the receiver's entries), partly symmetric and
+    # all-zero data x every way of naming the groups (default, 1-d, 2-d, several groups, single-mode groups,
+    # which are trivially symmetric) x both versions; the branch taken is decided by a NumPy reference
+    SYM = [([2, 2, 2], [[0, 1, 2]]), ([3, 3], [[0, 1]]), ([2, 2, 3], [[0, 1]]), ([2, 3, 2], [[0, 2]]),
+           ([2, 2, 3, 3], [[0, 1], [2, 3]]), ([4], [[0]]), ([2, 1, 2], [[0, 2]])]
+    if tier == "thorough":
+        SYM += [([3, 3, 3], [[0, 1, 2]]), ([2, 2, 2, 2], [[0, 1, 2, 3]]), ([2, 2, 2, 2], [[0, 3], [1, 2]]), ([3, 2, 3], [[2, 0]])]
+    for shape, full in SYM:
         N = len(shape)
-        out.append(case(C, "contract", "", X, [py(0), py(1)]))
-        out.append(case(C, "symmetrize", "all", X))
-        out.append(case(C, "symmetrize", "grps", X, [arr([1, 2], [0, 1], "i")]))
-        out.append(case(C, "symmetrize", "v1", X, [], {"version": py(1)}))
-        out.append(case(C, "issymmetric", "new", X))
-        out.append(case(C, "issymmetric", "grps", X, [arr([1, 2], [0, 1], "i")]))
-        out.append(case(C, "issymmetric", "details", X, [], {"version": py(1), "return_details": py(True)}))
-        out.append(case(C, "ttsv", "scalar", X, [vec(rng, shape[0])]))
-        out.append(case(C, "ttsv", "skip0", X, [vec(rng, shape[0])], {"skip_dim": py(0)}))
-        if N == 3:
-            out.append(case(C, "ttsv", "skip1", X, [vec(rng, shape[0])], {"skip_dim": py(1)}))
-            out.append(case(C, "ttsv", "v1", X, [vec(rng, shape[0])], {"skip_dim": py(0), "version": py(1)}))
+        whole = full == [list(range(N))]
+        datas = [("generic", gen.dense_data(rng, shape)), ("symmetric", sym_data(rng, shape, full)),
+                 ("zero", [0] * gen.numel(shape))]
+        if len(full) > 1:
+            datas.append(("partly", sym_data(rng, shape, full[:1])))
+        elif len(full[0]) > 2:
+            datas.append(("partly", sym_data(rng, shape, [full[0][:2]])))
+        for dl, data in datas:
+            X = {"t": "tensor", "shape": shape, "data": data}
+            forms = [("grps2d", [rows(full)], full), ("single-mode-groups", [rows([[k] for k in range(N)])], [[k] for k in range(N)])]
+            if whole:
+                forms.append(("default", [], full))
+            if len(full) == 1:
+                forms.append(("grps1d", [iarr(full[0])], full))
+                if len(full[0]) > 2:
+                    forms.append(("subgroup", [iarr(full[0][:2])], [full[0][:2]]))
+            for fl, a, grps in forms:
+                same = is_sym(shape, data, grps)
+                lab = f"{dl}/{fl}/{'already-symmetric' if same else 'averaged'}"
+                out.append(case(C, "symmetrize", lab, X, a, {}, M(C, "symmetrize", shape=shape, flag="same" if same else "")))
+                out.append(case(C, "symmetrize", lab + "/v1", X, a, {"version": py(1)}, M(C, "symmetrize", shape=shape, flag="v1")))
+                out.append(case(C, "issymmetric", lab, X, a, {}, RO))
+                out.append(case(C, "issymmetric", lab + "/details", X, a, {"version": py(1), "return_details": py(True)}))
+        if not whole:
+            continue
+        X = Tspec(rng, shape)
+        sz = shape[0]
+        if N >= 2:
+            out.append(case(C, "contract", "", X, [py(0), py(1)]))
+        # ttsv: every skip_dim; the last one multiplies NOTHING (the result carries the receiver's entries)
+        def ttsv_model(dnew, none):
+            return M(C, "ttsv", shape=[sz] * dnew, k=dnew, flag="none" if none else "")
+        for Xv, vl in ((X, ""), (Tzero(shape), "zero/")):
+            out.append(case(C, "ttsv", vl + "scalar", Xv, [vec(rng, sz)], {}, ttsv_model(0, False)))
+            for sk in range(N):
+                out.append(case(C, "ttsv", vl + (f"skip{sk}" if sk < N - 1 else "skip-last/nothing-multiplied"), Xv, [vec(rng, sz)],
+                                {"skip_dim": py(sk)}, ttsv_model(sk + 1, sk == N - 1)))
+                out.append(case(C, "ttsv", vl + (f"skip{sk}/v1" if sk < N - 1 else "skip-last/nothing-multiplied/v1"), Xv,
+                                [vec(rng, sz)], {"skip_dim": py(sk), "version": py(1)}))
     return out
 
 
@@ -775,9 +1012,10 @@ def sptensor_cases(rng, tier):
                          arr([2 * nz, 1], s["vals"] * 2, "f"), py(shape)], {"function_handle": py("max")}, COMP, "static"))
     out.append(case(C, "from_function", "", None, [fn("ones"), py([3, 4]), py(5)], {}, COMP, "static"))
     shapes = SPARSE_SHAPES if tier == "quick" else SPARSE_SHAPES + [gen.shape(rng, 1, 4, 3) for _ in range(16)]
-    for shape in shapes:
+    for si, shape in enumerate(shapes):
         N = len(shape)
-        for klass in ("some", "empty"):
+        # receivers with several stored entries, with NONE (a tensor without nonzeros) and with a single one
+        for klass in (("some", "empty", "one") if si < (2 if tier == "quick" else 8) else ("some", "empty")):
             X = Sspec(rng, shape, klass)
             lab = klass
             for m in ("copy", "__pos__"):
@@ -787,13 +1025,13 @@ def sptensor_cases(rng, tier):
             for m in ("double", "norm", "allsubs", "__repr__", "__str__", "logical_not", "squash"):
                 out.append(case(C, m, lab, X))
             for m in ("full", "to_tensor"):
-                out.append(case(C, m, lab, X, [], {}, M(C, "full") if klass == "some" else COMP))
+                out.append(case(C, m, lab, X, [], {}, M(C, "full") if klass != "empty" else COMP))
             CS = M(C, "copysubs_newvals")
             for m in ("ones", "__neg__"):
                 out.append(case(C, m, lab, X, [], {}, CS))
             for m in ("ndims", "nnz", "order"):
                 out.append(case(C, m, lab, X, kind="prop"))
-            NSm = NS if klass == "some" else COMP
+            NSm = NS if klass != "empty" else COMP
             for p in (perms_for(rng, shape, tier)[:3] if tier == "quick" else perms_for(rng, shape, tier)):
                 out.append(case(C, "permute", f"{lab}/{'id' if p == sorted(p) else 'perm'}", X, [iarr(p)], {}, NSm))
             for t in (reshape_targets(shape)[:3] if tier == "quick" else reshape_targets(shape)):
@@ -820,22 +1058,61 @@ def sptensor_cases(rng, tier):
             out.append(case(C, "__getitem__", f"{lab}/subtensor", X, [tup([sl(None, None)] * N)]))
             out.append(case(C, "__getitem__", f"{lab}/subtensor-mixed", X, [tup([py(0)] + [sl(None, None)] * (N - 1))]))
             out.append(case(C, "__getitem__", f"{lab}/scalar", X, [tup([py(0)] * N)]))
+            # scale: a receiver without nonzeros has nothing to scale (the result is a copy); every factor kind
+            SC = M(C, "copysubs_newvals") if klass != "empty" else M(C, "copy")
+            out.append(case(C, "scale", f"{lab}/array", X, [vec(rng, shape[0]), py(0)], {}, SC))
+            out.append(case(C, "scale", f"{lab}/array-last", X, [vec(rng, shape[N - 1]), iarr([N - 1])], {}, SC))
+            out.append(case(C, "scale", f"{lab}/tensor", X, [Tspec(rng, [shape[0]]), iarr([0])], {}, SC))
+            out.append(case(C, "scale", f"{lab}/sptensor", X, [Sspec(rng, [shape[0]], "all"), iarr([0])], {}, SC))
+            out.append(case(C, "scale", f"{lab}/ones", X, [farr([1] * shape[0]), py(0)], {}, SC))
+            if N >= 2:
+                out.append(case(C, "scale", f"{lab}/tensor-two-modes", X, [Tpos(rng, shape[:2]), iarr([0, 1])], {}, SC))
+            # products: one mode, all modes, NO mode (nothing is multiplied)
+            out.append(case(C, "ttv", f"{lab}/one", X, [vec(rng, shape[0]), py(0)]))
+            out.append(case(C, "ttv", f"{lab}/all", X, [lst([vec(rng, d) for d in shape])]))
+            for sl_, a, kw in empty_selections(N, [vec(rng, d) for d in shape]):
+                out.append(case(C, "ttv", f"{lab}/{sl_}", X, a, kw))
+            out.append(case(C, "ttm", f"{lab}/none/dims-empty/0", X, [lst([])], {"dims": iarr([])}))
+            out.append(case(C, "collapse", f"{lab}/none", X, [iarr([])]))
+            out.append(case(C, "mask", f"{lab}/self", X, [X]))
+            out.append(case(C, "mask", f"{lab}/empty", X, [Sspec(rng, shape, "empty")]))
+            for m, e in (("__mul__", 1.0), ("__truediv__", 1.0), ("__rmul__", 1.0)):
+                out.append(case(C, m, f"{lab}/scalar-identity", X, [py(e)], {}, CS))
+            for m, e in (("__add__", 0.0), ("__sub__", 0.0), ("__mul__", 0.0)):
+                out.append(case(C, m, f"{lab}/scalar-zero", X, [py(e)]))
+            if N >= 2:
+                out.append(case(C, "ttm", f"{lab}/mode0", X, [mat(rng, 2, shape[0]), py(0)]))
+                out.append(case(C, "ttm", f"{lab}/list-one", X, [lst([mat(rng, 2, shape[N - 1])]), iarr([N - 1])]))
+                out.append(case(C, "mttkrp", f"{lab}/list/0", X, [lst([mat(rng, d, 2) for d in shape]), py(0)]))
+                out.append(case(C, "collapse", f"{lab}/dims", X, [iarr([0])]))
+                out.append(case(C, "nvecs", lab, X, [py(0), py(1)]))
+                out.append(case(C, "innerprod", f"{lab}/ktensor", X, [Kspec(rng, shape)]))
+                out.append(case(C, "__mul__", f"{lab}/ktensor", X, [Kspec(rng, shape)], {},
+                                M(C, "copysubs_newvals") if klass != "empty" else M(C, "copy")))
         X = Sspec(rng, shape)
         Y = Sspec(rng, shape)
         D = Tspec(rng, shape)
-        for m in ("__mul__", "__truediv__", "__eq__", "__ne__", "__ge__", "__gt__", "__le__", "__lt__", "logical_and",
-                  "logical_or", "logical_xor", "__add__", "__sub__", "isequal", "innerprod"):
+        BIN = ("__mul__", "__truediv__", "__eq__", "__ne__", "__ge__", "__gt__", "__le__", "__lt__", "logical_and",
+               "logical_or", "logical_xor", "__add__", "__sub__", "isequal", "innerprod")
+        for m in BIN:
             out.append(case(C, m, "sptensor", X, [Y]))
             out.append(case(C, m, "tensor", X, [D]))
+        # either operand (or both) WITHOUT nonzeros: several operations then hand on a copy of the other one
+        E1, E2, Z = Sspec(rng, shape, "empty"), Sspec(rng, shape, "empty"), Tzero(shape)
+        for m in BIN:
+            out.append(case(C, m, "sptensor/other-empty", X, [E2]))
+            out.append(case(C, m, "sptensor/self-empty", E1, [Y]))
+            out.append(case(C, m, "sptensor/both-empty", E1, [E2]))
+            out.append(case(C, m, "tensor/self-empty", E1, [D]))
+            out.append(case(C, m, "tensor/other-zero", X, [Z]))
+            out.append(case(C, m, "tensor/both-zero", E1, [Z]))
+        out.append(case(C, "__add__", "same-pattern", X, [dict(X, vals=[1] * len(X["vals"]))]))
+        out.append(case(C, "__sub__", "self-copy", X, [X]))
+        out.append(case(C, "__add__", "sumtensor/self-empty", E1, [{"t": "sumtensor", "parts": [Tspec(rng, shape)]}]))
         out.append(case(C, "__mul__", "ktensor", X, [Kspec(rng, shape)], {}, M(C, "copysubs_newvals")))
         out.append(case(C, "__truediv__", "ktensor", X, [Kspec(rng, shape, pos=True)], {}, M(C, "copysubs_newvals")))
         out.append(case(C, "__add__", "sumtensor", X, [{"t": "sumtensor", "parts": [Tspec(rng, shape)]}]))
         out.append(case(C, "mask", "", X, [Y]))
-        out.append(case(C, "scale", "array", X, [vec(rng, shape[0]), py(0)], {}, M(C, "copysubs_newvals")))
-        out.append(case(C, "scale", "tensor", X, [Tspec(rng, [shape[0]]), iarr([0])], {}, M(C, "copysubs_newvals")))
-        out.append(case(C, "scale", "sptensor", X, [Sspec(rng, [shape[0]], "all"), iarr([0])], {}, M(C, "copysubs_newvals")))
-        out.append(case(C, "ttv", "one", X, [vec(rng, shape[0]), py(0)]))
-        out.append(case(C, "ttv", "all", X, [lst([vec(rng, d) for d in shape])]))
         if N >= 2:
             out.append(case(C, "innerprod", "ktensor", X, [Kspec(rng, shape)]))
             out.append(case(C, "collapse", "dims", X, [iarr([0])]))
@@ -912,11 +1189,12 @@ def ktensor_cases(rng, tier):
         out.append(case(C, "from_vector", "row", None, [arr([1, tot], list(range(1, tot + 1))), py(shape), py(False)], {}, COMP, "static"))
         out.append(case(C, "from_function", "", None, [fn("ones"), py(shape), py(2)], {}, COMP, "static"))
     shapes = K_SHAPES if tier == "quick" else K_SHAPES + [[2, 1, 3], [2, 2, 2, 2]] + [gen.shape(rng, 1, 4, 4) for _ in range(8)]
-    for shape in shapes:
+    for si, shape in enumerate(shapes):
         n = len(shape)
-        for unit in (False, True):
-            X = Kspec(rng, shape, 2, unit)
-            lab = "unit" if unit else "w"
+        # weighted, unit weights, and ALREADY in normal form (unit columns, unit weights, sorted)
+        for lab in (("w", "unit", "normal") if (si < 2 or tier == "thorough") else ("w", "unit")):
+            unit = lab != "w"
+            X = Kspec(rng, shape, 2, unit, normal=(lab == "normal"))
             for m in ("copy", "__pos__"):
                 out.append(case(C, m, lab, X, [], {}, M(C, "copy", n=n)))
             out.append(case(C, "__deepcopy__", lab, X, [py({})], {}, M(C, "copy", n=n)))
@@ -947,6 +1225,8 @@ def ktensor_cases(rng, tier):
                                 M(C, "permute", n=n, perm=p)))
             # ttv
             out.append(case(C, "ttv", f"{lab}/all", X, [lst([vec(rng, d) for d in shape])], {}, M(C, "ttv", n=n, flag="scalar")))
+            for sl_, a, kw in empty_selections(n, [vec(rng, d) for d in shape]):  # NO mode: every factor matrix remains
+                out.append(case(C, "ttv", f"{lab}/{sl_}", X, a, kw, M(C, "ttv", n=n, dims=list(range(n)))))
             if n >= 2:
                 for ds in mode_subsets(rng, n, tier):
                     rem = [k for k in range(n) if k not in ds]
@@ -1021,6 +1301,29 @@ def ktensor_cases(rng, tier):
     X = Kspec(rng, [3, 3, 3], 2)
     out.append(case(C, "symmetrize", "", X))
     out.append(case(C, "issymmetric", "cubic", X))
+    # already symmetric (all factor matrices equal): nothing to symmetrize
+    f = [[rng.choice([-2, -1, 1, 2, 3]) for _ in range(2)] for _ in range(3)]
+    XS = {"t": "ktensor", "weights": [2, 3], "factors": [f, f, f]}
+    out.append(case(C, "symmetrize", "already-symmetric", XS))
+    out.append(case(C, "issymmetric", "already-symmetric", XS))
+    out.append(case(C, "issymmetric", "already-symmetric/diffs", XS, [py(True)]))
+    # a single component (lists / index arrays of one element)
+    for shape in ([3, 2], [2, 1, 3]):
+        n = len(shape)
+        X1 = Kspec(rng, shape, 1)
+        for m in ("copy", "__pos__"):
+            out.append(case(C, m, "R1", X1, [], {}, M(C, "copy", n=n)))
+        out.append(case(C, "full", "R1", X1, [], {}, M(C, "full", shape=shape)))
+        out.append(case(C, "double", "R1", X1, [], {}, M(C, "double", n=n, shape=shape)))
+        out.append(case(C, "tolist", "R1", X1, [], {}, M(C, "tolist", n=n, flag="")))
+        out.append(case(C, "tovec", "R1", X1, [], {}, M(C, "tovec", n=n)))
+        out.append(case(C, "extract", "R1/only", X1, [iarr([0])], {}, M(C, "extract", n=n)))
+        out.append(case(C, "extract", "R1/int", X1, [py(0)], {}, M(C, "extract", n=n)))
+        out.append(case(C, "permute", "R1/id", X1, [iarr(list(range(n)))], {}, M(C, "permute", n=n, perm=list(range(n)))))
+        out.append(case(C, "ttv", "R1/one", X1, [lst([vec(rng, shape[0])]), iarr([0])], {}, M(C, "ttv", n=n, dims=list(range(1, n)))))
+        out.append(case(C, "__add__", "R1", X1, [Kspec(rng, shape, 1)], {}, M(C, "addsub", n=n)))
+        out.append(case(C, "arrange", "R1/perm", X1, [], {"permutation": iarr([0])}, M(C, "arrange", n=n, flag="perm"), "inplace"))
+        out.append(case(C, "normalize", "R1", X1, [], {}, M(C, "normalize", n=n, flag=""), "inplace"))
     return out
 
 
@@ -1091,6 +1394,19 @@ def ttensor_cases(rng, tier):
                                 ttv_model(range(1, n))))
             for ds in mode_subsets(rng, n, tier):
                 out.append(case(C, "ttv", f"{cl}/dims{len(ds)}", X, [lst([vec(rng, shape[k]) for k in ds]), iarr(ds)], {}, ttv_model(ds)))
+            # NO mode selected: the core goes through `core.ttv([], [])`, every factor matrix remains
+            for sl_, a, kw in empty_selections(n, [vec(rng, d) for d in shape]):
+                out.append(case(C, "ttv", f"{cl}/{sl_}", X, a, kw, ttv_model([])))
+            for sl_, a, kw in empty_selections(n, [mat(rng, 2, d) for d in shape]):
+                out.append(case(C, "ttm", f"{cl}/{sl_}", X, a, kw, P("ttm", dims=[], perm=[])))
+            out.append(case(C, "ttm", f"{cl}/list-one", X, [lst([mat(rng, 2, shape[n - 1])]), iarr([n - 1])], {},
+                            P("ttm", dims=[n - 1], perm=[b0])))
+            out.append(case(C, "ttm", f"{cl}/identity-matrix", X,
+                            [arr([shape[0], shape[0]], [1 if i == j else 0 for j in range(shape[0]) for i in range(shape[0])]), py(0)],
+                            {}, P("ttm", dims=[0], perm=[b0])))
+            out.append(case(C, "__mul__", f"{cl}/scalar-identity", X, [py(1.0)], {}, P("scale", flag="mul")))
+            out.append(case(C, "reconstruct", f"{cl}/identity-samples", X, [iarr(list(range(shape[0]))), py(0)], {},
+                            P("reconstruct", dims=[1] + [0] * (n - 1), perm=[b0] + [0] * (n - 1))))
             for k in range(n):
                 out.append(case(C, "ttm", f"{cl}/mode{k}", X, [mat(rng, 2, shape[k]), py(k)], {}, P("ttm", dims=[k], perm=[b0])))
                 out.append(case(C, "mttkrp", f"{cl}/list/{k}", X, [lst([mat(rng, d, 2) for d in shape]), py(k)], {}, P("mttkrp", dims=[k])))
@@ -1132,13 +1448,14 @@ def sumtensor_cases(rng, tier):
     out = []
     C = "sumtensor"
     configs = [([2, 3, 4], "TSKU"), ([3, 2], "TSKU"), ([3, 2], "K"), ([2, 3], "ST"), ([3, 1, 2], "VTK"), ([2, 2], "TT"),
-               ([2, 3], "T"), ([1, 3], "U")]
+               ([2, 3], "T"), ([1, 3], "U"), ([2, 3], "EK"), ([3, 2], "ZE"), ([2, 2], "E")]  # E / Z: parts without nonzeros
     if tier == "thorough":
         configs += [([2, 3, 2], "UVSKT"), ([4], "KT"), ([2, 1, 2], "S"), ([3, 2], "VU"), ([2, 2, 2], "KKT")]
 
     def mk(ch, shape):
         cs = [min(2, d) for d in shape]
         return {"T": lambda: Tspec(rng, shape), "S": lambda: Sspec(rng, shape), "K": lambda: Kspec(rng, shape),
+                "E": lambda: Sspec(rng, shape, "empty"), "Z": lambda: Tzero(shape),
                 "U": lambda: TTspec(rng, shape, cs), "V": lambda: TTsp(rng, shape, cs)}[ch]()
 
     for shape, letters in configs:
@@ -1166,7 +1483,7 @@ def sumtensor_cases(rng, tier):
             out.append(case(C, m, lb, X, [], {}, RO))
         for m in ("ndims", "order", "shape"):
             out.append(case(C, m, lb, X, kind="prop"))
-        for ch in "TSKUV":
+        for ch in "TSKUVEZ":
             o = mk(ch, shape)
             out.append(case(C, "__add__", f"{lb}+{ch}", X, [o], {}, P("copy", kinds=kinds + [kind_of(o)])))
             out.append(case(C, "__radd__", f"{ch}+{lb}", X, [o], {}, P("copy", kinds=kinds + [kind_of(o)])))
@@ -1187,6 +1504,8 @@ def sumtensor_cases(rng, tier):
 
         out.append(case(C, "ttv", f"{lb}/one", X, [vec(rng, shape[0]), py(0)], {}, ttv_model([0])))
         out.append(case(C, "ttv", f"{lb}/all", X, [lst([vec(rng, d) for d in shape])], {}, ttv_model(range(n))))
+        for sl_, a, kw in empty_selections(n, [vec(rng, d) for d in shape]):  # NO mode selected: `part.ttv([], [])` per part
+            out.append(case(C, "ttv", f"{lb}/{sl_}", X, a, kw, ttv_model([])))
         if n >= 2:
             for ds in mode_subsets(rng, n, tier):
                 out.append(case(C, "ttv", f"{lb}/dims{len(ds)}", X, [lst([vec(rng, shape[k]) for k in ds]), iarr(ds)], {},
@@ -1265,6 +1584,11 @@ def tenmat_cases(rng, tier):
                     out.append(case(C, m, f"{lb}/scalar", XR, [py(2.0)], {}, M(C, "arith", shape=[r, c])))
                 for m in ("__mul__", "__rmul__"):
                     out.append(case(C, m, f"{lb}/scalar", XR, [py(2.0)], {}, M(C, "arith", shape=[r, c])))
+                    if dt == "f" and ki < 4:
+                        out.append(case(C, m, f"{lb}/scalar-identity", XR, [py(1.0)], {}, M(C, "arith", shape=[r, c])))
+                if dt == "f" and ki < 4:
+                    for m in ("__add__", "__sub__", "__radd__"):
+                        out.append(case(C, m, f"{lb}/scalar-identity", XR, [py(0.0)], {}, M(C, "arith", shape=[r, c])))
                 # product with the matricization that swaps rows and columns
                 ZR = {"t": "tenmat_raw", "data": arr([c, r], _mat_data(rng, c, r, dt), dt, "F"),
                       "rdims": cd, "cdims": rd, "tshape": shape}
@@ -1437,9 +1761,42 @@ def utils_cases(rng, tier):
     out.append(case("func", "tenrand", "", None, [py((2, 3))]))
     out.append(case("func", "teneye", "", None, [py(2), py(2)]))
     out.append(case("func", "sptenrand", "", None, [py((3, 4))], {"nonzeros": py(3)}))
-    out.append(case("func", "khatrirao", "two", None, [mat(rng, 2, 3), mat(rng, 4, 3, "C")]))
-    out.append(case("func", "khatrirao", "reverse", None, [mat(rng, 2, 2), mat(rng, 3, 2), mat(rng, 2, 2)], {"reverse": py(True)}))
-    out.append(case("func", "khatrirao", "one", None, [mat(rng, 2, 3)]))
+    # khatrirao: a SINGLE matrix (nothing to multiply: the result carries the argument's entries) in every layout
+    # and shape (1-row / 1-column / 1x1 included), with and without `reverse`; then two and three matrices
+    KR = lambda n, r, c: M("func", "khatrirao", n=n, shape=[r, c])  # noqa: E731
+    for r, c in ([2, 3], [3, 2], [1, 3], [3, 1], [1, 1]):
+        for lay in ("F", "C", "S"):
+            for rev in (False, True):
+                out.append(case("func", "khatrirao", f"one/{lay}/reverse={rev}", None, [mat(rng, r, c, lay)],
+                                {"reverse": py(rev)} if rev else {}, KR(1, r, c)))
+    for lays in (("F", "C"), ("C", "S"), ("S", "F")):
+        out.append(case("func", "khatrirao", "two/" + "".join(lays), None, [mat(rng, 2, 3, lays[0]), mat(rng, 4, 3, lays[1])], {}, KR(2, 8, 3)))
+    out.append(case("func", "khatrirao", "two/1x1", None, [mat(rng, 1, 1), mat(rng, 1, 1, "C")], {}, KR(2, 1, 1)))
+    out.append(case("func", "khatrirao", "two/one-row-each", None, [mat(rng, 1, 3), mat(rng, 1, 3)], {}, KR(2, 1, 3)))
+    out.append(case("func", "khatrirao", "three/reverse", None, [mat(rng, 2, 2), mat(rng, 3, 2), mat(rng, 2, 2)], {"reverse": py(True)},
+                    KR(3, 12, 2)))
+    out.append(case("func", "khatrirao", "list-rejected", None, [lst([mat(rng, 2, 3), mat(rng, 4, 3)])]))
+    # helpers on degenerate arguments: empty / identical row sets, an identity renumbering, empty mode selections
+    E = arr([0, 2], [], "i", "C")
+    for m in ("tt_union_rows", "tt_setdiff_rows", "tt_intersect_rows", "tt_ismember_rows"):
+        out.append(case("utils", m, "second-empty", None, [A, E]))
+        out.append(case("utils", m, "first-empty", None, [E, A]))
+        out.append(case("utils", m, "identical", None, [A, A]))
+        out.append(case("utils", m, "single-row", None, [arr([1, 2], [1, 2], "i", "C"), B]))
+    out.append(case("utils", "tt_renumber", "identity", None, [rows([[0, 1], [1, 2]]), py((2, 3)), lst([sl(None, None), sl(None, None)])]))
+    out.append(case("utils", "tt_renumber", "empty-subs", None, [E, py((2, 3)), lst([sl(None, None), py([1, 2])])]))
+    out.append(case("utils", "tt_dimscheck", "dims-empty", None, [py(3)], {"dims": iarr([])}))
+    out.append(case("utils", "tt_dimscheck", "exclude-all", None, [py(3), py(0)], {"exclude_dims": iarr([0, 1, 2])}))
+    out.append(case("utils", "tt_dimscheck", "dims-all-sorted", None, [py(3), py(3)], {"dims": iarr([0, 1, 2])}))
+    out.append(case("utils", "tt_sub2ind", "empty", None, [py((2, 3)), E]))
+    out.append(case("utils", "tt_sub2ind", "single-row", None, [py((2, 3)), arr([1, 2], [1, 2], "i", "C")]))
+    out.append(case("utils", "parse_one_d", "single", None, [iarr([2])], {}, M("utils", "parse_one_d")))
+    out.append(case("utils", "parse_one_d", "empty", None, [iarr([])], {}, M("utils", "parse_one_d")))
+    out.append(case("utils", "to_memory_order", "1-row", None, [mat(rng, 1, 3, "C"), py("F")], {}, M("utils", "to_memory_order", copy=False)))
+    out.append(case("utils", "to_memory_order", "1-row-copy", None, [mat(rng, 1, 3, "C"), py("F")], {"copy": py(True)},
+                    M("utils", "to_memory_order", copy=True)))
+    out.append(case("func", "tendiag", "single", None, [farr([4])]))
+    out.append(case("func", "sptendiag", "single", None, [farr([4])]))
     return out
 
 
@@ -1511,6 +1868,14 @@ def _alg_cases(rng, shape, tier):
                             _ainit(m, ["2.params.dimorder", "2.params.optdims"])))
         out.append(case("alg", "cp_als", f"{dn}/init/nofixsigns", None, [X, py(R)], dict(common, init=guess(), fixsigns=py(False)),
                         _ainit(m, [])))
+        # runs that stop at once (one iteration allowed / a tolerance met by the first iteration / no iteration at
+        # all / no mode to optimize): the result is (nearly) the initial guess and must still be a copy of it
+        out.append(case("alg", "cp_als", f"{dn}/init/maxiters=1", None, [X, py(R)], dict(common, init=guess(), maxiters=py(1)), _ainit(m, [])))
+        out.append(case("alg", "cp_als", f"{dn}/init/stops-at-once", None, [X, py(R)], dict(common, init=guess(), stoptol=py(10.0)),
+                        _ainit(m, [])))
+        out.append(case("alg", "cp_als", f"{dn}/init/maxiters=0", None, [X, py(R)], dict(common, init=guess(), maxiters=py(0)), _ainit(m, [])))
+        out.append(case("alg", "cp_als", f"{dn}/init/optdims-empty", None, [X, py(R)], dict(common, init=guess(), optdims=iarr([])),
+                        _ainit(m, ["2.params.optdims"])))
     if N >= 2:
         TT = TTspec(rng, shape)
         out.append(case("alg", "cp_als", "ttensor/init", None, [TT, py(R)], dict(common, init=guess(), optdims=iarr([N - 1])),
@@ -1531,6 +1896,12 @@ def _alg_cases(rng, shape, tier):
             out.append(case("alg", "cp_apr", f"{dn}/{algo}/init-zero-row", None, [X, py(R)], dict(kw, init=Kz), _ainit(m, [])))
             out.append(case("alg", "cp_apr", f"{dn}/{algo}/init-zero-row-last", None, [X, py(R)],
                             dict(kw, init=Kz2, precompinds=py(False), inexact=py(False), maxinneriters=py(3)), _ainit(m, [])))
+            out.append(case("alg", "cp_apr", f"{dn}/{algo}/init/stops-at-once", None, [X, py(R)],
+                            dict(kw, init=guess(), stoptol=py(1e9)), _ainit(m, [])))
+            out.append(case("alg", "cp_apr", f"{dn}/{algo}/init/maxiters=1", None, [X, py(R)],
+                            dict(kw, init=guess(), maxiters=py(1), maxinneriters=py(1)), _ainit(m, [])))
+            out.append(case("alg", "cp_apr", f"{dn}/{algo}/init/maxiters=0", None, [X, py(R)],
+                            dict(kw, init=guess(), maxiters=py(0)), _ainit(m, [])))
     # ---- gcp_opt -----------------------------------------------------------------------------
     obj = {"t": "objective", "name": "GAUSSIAN"}
     gk = {"printitn": py(0)}
@@ -1542,6 +1913,15 @@ def _alg_cases(rng, shape, tier):
             out.append(case("alg", "gcp_opt", f"{dn}/{on}/ktensor", None, [X, py(R), obj, opt], dict(gk, init=guess()), AF))
             out.append(case("alg", "gcp_opt", f"{dn}/{on}/list", None, [X, py(R), obj, opt],
                             dict(gk, init=lst([mat(rng, d, R) for d in shape])), AF))
+        # no optimization step at all: the result carries the initial guess and must still be a copy of it
+        for on in ("Adam", "SGD"):
+            opt0 = {"t": "optimizer", "name": on, "max_iters": 0}
+            out.append(case("alg", "gcp_opt", f"{dn}/{on}/ktensor/no-iterations", None, [X, py(R), obj, opt0], dict(gk, init=guess()), AF))
+            out.append(case("alg", "gcp_opt", f"{dn}/{on}/list/no-iterations", None, [X, py(R), obj, opt0],
+                            dict(gk, init=lst([mat(rng, d, R) for d in shape])), AF))
+        if dn == "tensor":
+            out.append(case("alg", "gcp_opt", f"{dn}/LBFGSB/ktensor/no-iterations", None,
+                            [X, py(R), obj, {"t": "optimizer", "name": "LBFGSB", "max_iters": 0}], dict(gk, init=guess()), AF))
         kinds = ["uniform"] if dn == "tensor" else ["stratified", "semistrat"]
         for kd in kinds:
             smp = {"t": "sampler", "data": X, "kind": kd}
@@ -1559,6 +1939,7 @@ def _alg_cases(rng, shape, tier):
     X = Tspec(rng, shape)
     rk = [min(2, d) for d in shape]
     tk = {"maxiters": py(2), "printitn": py(0)}
+    hk_ = {"verbosity": py(0)}
     out.append(case("alg", "tucker_als", "random", None, [X, py(rk)], dict(tk), AF))
     out.append(case("alg", "tucker_als", "rank-array", None, [X, iarr(rk)], dict(tk), AF))
     out.append(case("alg", "tucker_als", "nvecs", None, [X, iarr(rk)], dict(tk, init=py("nvecs")), AF))
@@ -1570,6 +1951,15 @@ def _alg_cases(rng, shape, tier):
         out.append(case("alg", "tucker_als", "random+dimorder", None, [X, py(rk)], dict(tk, dimorder=py(do)), AF))
     out.append(case("alg", "tucker_als", "init", None, [X, iarr(rk)], dict(tk, init=lst([mat(rng, d, r) for d, r in zip(shape, rk)])),
                     _ainit(1, [])))
+    U0 = lambda: lst([mat(rng, d, r) for d, r in zip(shape, rk)])  # noqa: E731
+    out.append(case("alg", "tucker_als", "init/maxiters=1", None, [X, iarr(rk)], dict(tk, init=U0(), maxiters=py(1)), _ainit(1, [])))
+    out.append(case("alg", "tucker_als", "init/stops-at-once", None, [X, iarr(rk)], dict(tk, init=U0(), stoptol=py(10.0)), _ainit(1, [])))
+    out.append(case("alg", "tucker_als", "init/maxiters=0", None, [X, iarr(rk)], dict(tk, init=U0(), maxiters=py(0)), _ainit(1, [])))
+    out.append(case("alg", "tucker_als", "init/full-ranks", None, [X, iarr(shape)],
+                    dict(tk, init=lst([mat(rng, d, d) for d in shape])), _ainit(1, [])))
+    out.append(case("alg", "hosvd", "full-ranks", None, [X, py(0.5)], dict(hk_, ranks=iarr(shape)), AF))
+    out.append(case("alg", "hosvd", "tol-tiny", None, [X, py(1e-12)], dict(hk_), AF))
+    out.append(case("alg", "hosvd", "zero-data", None, [Tzero(shape), py(0.5)], dict(hk_, ranks=iarr(rk)), AF))
     hk = {"verbosity": py(0)}
     out.append(case("alg", "hosvd", "tol", None, [X, py(0.5)], dict(hk), AF))
     out.append(case("alg", "hosvd", "tol/nonsequential", None, [X, py(0.1)], dict(hk, sequential=py(False)), AF))
@@ -1675,6 +2065,31 @@ def judge(c, obs, mod):
     if extra:
         pairs = [f"{r or 'result'}~{names[i]}" for r, i in extra]
         return Verdict("violation", f"{what}: result shares memory with operand(s): {pairs}", obs, mod, None, tags)
+    # object level: identity and write-through with the objects' own __setitem__
+    okp = exp_share | (seen if spec == "knownAlias" else set())
+    rsize = dict(zip(obs["results"], obs.get("rsize", [])))
+    kept = []  # (result object, operand object) identities that a documented no-copy parameter explains
+    for rp, op in obs.get("same", []):
+        inside = [rn for rn in obs["results"] if under(rn, rp) and rsize.get(rn, 1) > 0]
+        explained = spec in ("noCopy", "knownAlias") and all(
+            any((rn, i) in okp and under(names[i], op) for i in range(len(names))) for rn in inside)
+        if not explained:
+            return Verdict("violation", f"{what}: the returned object {rp or 'result'} IS the operand object {op} "
+                                        f"(not a copy): a later in-place change of either is one of the other",
+                           obs, mod, None, tags + ["same-object"])
+        kept.append((rp, op))
+    for d, a, b in obs.get("visible_obj", []):
+        if d == "r":  # wrote through result object a, operand array b changed
+            i = names.index(b) if b in names else -1
+            explained = (any((rn, i) in okp for rn in obs["results"] if under(rn, a))
+                         or any((under(a, rp) or under(rp, a)) and under(b, op) for rp, op in kept))
+            msg = f"an in-place write to the returned object {a or 'result'} changes the operand {b}"
+        else:         # wrote through operand object b, result array a changed
+            explained = (any((a, i) in okp for i in range(len(names)) if under(names[i], b))
+                         or any(under(a, rp) and (under(b, op) or under(op, b)) for rp, op in kept))
+            msg = f"an in-place write to the operand object {b} changes the returned {a or 'result'}"
+        if not explained:
+            return Verdict("violation", f"{what}: {msg}", obs, mod, None, tags + ["object-write-through"])
     if spec == "knownAlias" and seen:
         pairs = [f"{r or 'result'}~{names[i]}" for r, i in sorted(seen)]
         return Verdict("violation", f"known-alias {what}: result shares memory with operand(s): {pairs}", obs, mod, None,
@@ -1697,7 +2112,7 @@ def judge(c, obs, mod):
 
 class OpsFamily(Family):
     theorems = ("C05_no_visibility", "C05_pure_sound", "C05_fresh_sound", "C05_inplace_only", "C05_nocopy_within",
-                "C05_table_sound", "C05_table_semantics")
+                "C05_table_sound", "C05_table_semantics", "C05_fresh_corner_cases")
 
     def __init__(self, name, genfn, extra=()):
         self.name = name
@@ -1985,16 +2400,18 @@ class NumpyIdioms(Family):
         return out
 
 
-OPS = [OpsFamily("ops_tensor", tensor_cases), OpsFamily("ops_sptensor", sptensor_cases),
+OPS = [OpsFamily("ops_tensor", tensor_cases, ("C05_corner_cases_need_copy_example",)), OpsFamily("ops_sptensor", sptensor_cases),
        OpsFamily("ops_ktensor", ktensor_cases, ("C05_fresh_ktensor_ops", "C05_fresh_ktensor_more", "C05_inplace_only_ktensor")),
        OpsFamily("ops_ttensor", ttensor_cases, ("C05_static_compositional", "C05_call_pureFresh", "C05_fresh_ttensor_ops",
-                                                "C05_fresh_ttensor_products", "C05_fresh_ttensor_permute_reconstruct")),
+                                                "C05_fresh_ttensor_products", "C05_fresh_ttensor_permute_reconstruct",
+                                                "C05_fresh_empty_selection_composites")),
        OpsFamily("ops_sumtensor", sumtensor_cases, ("C05_static_compositional", "C05_call_pureFresh", "C05_fresh_sumtensor_ops",
-                                                    "C05_fresh_sumtensor_full", "C05_nocopy_sumtensor_ctor")),
+                                                    "C05_fresh_sumtensor_full", "C05_nocopy_sumtensor_ctor",
+                                                    "C05_fresh_empty_selection_composites")),
        OpsFamily("ops_tenmat", tenmat_cases, ("C05_fresh_tenmat_ctranspose", "C05_fresh_tenmat_ops", "C05_nocopy_tenmat_ctor",
                                               "C05_tenmat_to_tensor")),
        OpsFamily("ops_sptenmat", sptenmat_cases, ("C05_fresh_sptenmat_ops", "C05_nocopy_sptenmat_ctor")),
-       OpsFamily("ops_utils", utils_cases),
+       OpsFamily("ops_utils", utils_cases, ("C05_corner_cases_need_copy_example",)),
        OpsFamily("algorithms", alg_cases)]
 
 
